@@ -36,15 +36,61 @@ def programs(ctx: Ctx):
                 for d in list(m.imports):
                     if B._reaches(w, d, m.name):
                         m.imports[d] = "func"
+        add_inference_across_imports(w)
         w2 = copy.deepcopy(w)
         B.random_edit(rng, w2, ["signature", "attr", "meth", "toggle_error", "add_import", "remove_import", "body"])
         B.random_edit(rng, w2, ["signature", "attr", "toggle_error"])
         out.append((f"g{i}", w, w2))
+    out.append(("cycle-styles", mixed_style_cycles(), None))
+    # a chain whose bottom module changes its interface while its dependents' sources stay the same: on the warm
+    # parallel run the dependents are stale only through the new interface hash of the module below them
+    wc = B.World()
+    wc.mods["m2"] = B.Mod("m2", val_t="int")
+    wc.mods["m1"] = B.Mod("m1", imports={"m2": "import"}, uses={"m2": ["call", "val"]}, via="m2")
+    wc.mods["m0"] = B.Mod("m0", imports={"m1": "import"}, uses={"m1": ["via", "call"]})
+    wc.mods["m3"] = B.Mod("m3", imports={"m2": "from"}, uses={"m2": ["call"]})
+    wc2 = copy.deepcopy(wc)
+    wc2.mods["m2"].ret_t = "str"
+    wc2.mods["m2"].val_t = "str"
+    out.append(("chain-iface", wc, wc2))
     # a program with a blocking error in one module
     rngb = random.Random(f"c07b:{ctx.seed}")
     wb = B.gen_world(rngb, (5, 6))
     out.append(("blocker", wb, None))
     return out
+
+
+def add_inference_across_imports(w) -> None:
+    """Module-level variables WITHOUT annotation that are read across module boundaries: inside an import cycle the
+    order in which the members are processed decides whether such a read sees an inferred type or gives 'Cannot
+    determine type' — the sequential and the parallel build must order the members alike."""
+    for m in w.mods.values():
+        me = B.ident(m.name)
+        lines = [f"zv_{me} = [f_{me}(1)]"]
+        for dep, style in m.imports.items():
+            d = B.ident(dep)
+            if dep not in w.mods or style == "func":
+                continue
+            if style == "from":
+                m.from_extra.setdefault(dep, []).append(f"zv_{d}")
+                lines.append(f"zr_{me}_{d} = zv_{d}")
+            else:
+                lines.append(f"zr_{me}_{d} = {dep}.zv_{d}")
+            lines.append(f"reveal_type(zr_{me}_{d})")
+        m.extra = "\n".join(lines)
+
+
+def mixed_style_cycles():
+    """Two twin import cycles whose members import each other in different styles (`import x` vs `from x import`),
+    with the module names in opposite alphabetical order, plus a module outside the cycles."""
+    w = B.World()
+    for a, b in (("m0", "m1"), ("m3", "m2")):
+        w.mods[a] = B.Mod(a, imports={b: "import"}, uses={b: ["call"]})
+        w.mods[b] = B.Mod(b, imports={a: "from"}, uses={a: ["val"]})
+    w.mods["m4"] = B.Mod("m4", imports={"m0": "import", "m1": "import", "m2": "import", "m3": "import"},
+                         uses={"m0": ["call"], "m2": ["val"]}, ignore_missing=True)
+    add_inference_across_imports(w)
+    return w
 
 
 def trace_tokens(sched: list[str]):
@@ -74,7 +120,12 @@ def trace_tokens(sched: list[str]):
     return g, toks, ok_ids
 
 
+FLAG_SETS = [[], ["--warn-unused-ignores"], ["--warn-unused-ignores", "--strict-equality", "--warn-unreachable"], ["--show-error-context"]]
+
+
 def one(ctx: Ctx, name: str, w0, w1, nworkers: int, sseed: int) -> dict:
+    flags = FLAG_SETS[sseed % len(FLAG_SETS)]
+    slow = {"VERIF_COORD_SLOW": "0.7"} if sseed % 2 == 1 else {}
     base = os.path.join(ctx.tmp, f"{name}-n{nworkers}-s{sseed}")
     shutil.rmtree(base, ignore_errors=True)
     os.makedirs(base)
@@ -88,10 +139,10 @@ def one(ctx: Ctx, name: str, w0, w1, nworkers: int, sseed: int) -> dict:
     files0 = {os.path.relpath(os.path.join(dp, fn), root): open(os.path.join(dp, fn)).read()
               for dp, _, fs in os.walk(root) for fn in fs}
     wlog = os.path.join(base, "worker-ops.log")
-    par = B.run_mypy(root, os.path.join(base, "cpar"), ["-n", str(nworkers)], sched_log=True, sched_seed=sseed, scratch=base,
+    par = B.run_mypy(root, os.path.join(base, "cpar"), ["-n", str(nworkers)] + flags, sched_log=True, sched_seed=sseed, scratch=base,
                      env_extra={"VERIF_WORKER_OPLOG": wlog})
-    seq = B.run_mypy(root, os.path.join(base, "cseq"), SEQ, scratch=base)
-    rec = {"name": name, "n": nworkers, "sseed": sseed, "files0": files0, "par": par, "seq": seq,
+    seq = B.run_mypy(root, os.path.join(base, "cseq"), SEQ + flags, scratch=base)
+    rec = {"name": name, "n": nworkers, "sseed": sseed, "flags": flags, "files0": files0, "par": par, "seq": seq,
            "worker_ops": open(wlog).read().splitlines() if os.path.exists(wlog) else []}
     if seq.get("timeout") or seq.get("status") not in (0, 1, 2):
         raise ToolFailure(f"sequential run failed: {seq.get('status')} {seq.get('stderr', '')[-1200:]}")
@@ -101,21 +152,22 @@ def one(ctx: Ctx, name: str, w0, w1, nworkers: int, sseed: int) -> dict:
         return rec
     # the cache a parallel build leaves must be as good as a sequential one: warm rerun (sequential, then
     # after an edit parallel again) vs cold
-    warm = B.run_mypy(root, os.path.join(base, "cpar"), SEQ, scratch=base)
+    warm = B.run_mypy(root, os.path.join(base, "cpar"), SEQ + flags, scratch=base)
     rec["warm_same"] = warm
     if w1 is not None:
         B.materialize(w1, root, 1_700_000_004)
         rec["files1"] = {os.path.relpath(os.path.join(dp, fn), root): open(os.path.join(dp, fn)).read()
                          for dp, _, fs in os.walk(root) for fn in fs}
-        rec["par2"] = B.run_mypy(root, os.path.join(base, "cpar"), ["-n", str(nworkers)], sched_log=True, sched_seed=sseed + 1, scratch=base)
-        rec["cold2"] = B.run_mypy(root, os.path.join(base, "ccold2"), SEQ, scratch=base)
+        rec["par2"] = B.run_mypy(root, os.path.join(base, "cpar"), ["-n", str(nworkers)] + flags, sched_log=True, sched_seed=sseed + 1, scratch=base,
+                                 env_extra=slow)
+        rec["cold2"] = B.run_mypy(root, os.path.join(base, "ccold2"), SEQ + flags, scratch=base)
         # … and back to the first version: whatever the parallel builds recorded (dependency hashes!) must
         # not make a later warm run — sequential or parallel — trust stale entries
         B.materialize(w0, root, 1_700_000_006)
         if name == "blocker":
             pass
-        rec["back_seq"] = B.run_mypy(root, os.path.join(base, "cpar"), SEQ, scratch=base)
-        rec["back_cold"] = B.run_mypy(root, os.path.join(base, "ccold3"), SEQ, scratch=base)
+        rec["back_seq"] = B.run_mypy(root, os.path.join(base, "cpar"), SEQ + flags, scratch=base)
+        rec["back_cold"] = B.run_mypy(root, os.path.join(base, "ccold3"), SEQ + flags, scratch=base)
     shutil.rmtree(base, ignore_errors=True)
     return rec
 
@@ -134,7 +186,7 @@ def main(ctx: Ctx) -> None:
         ns = [2, 4] if ctx.quick() else [1, 2, 3, 5, 8]
         seeds = ctx.pick(2, 4)
         for n in ns if name != "blocker" else [2]:
-            for s in range(seeds if name != "blocker" else 1):
+            for s in range(seeds if name not in ("blocker",) else 1):
                 jobs.append((name, w0, w1, n, ctx.seed * 100 + s * 7 + n))
     with ThreadPoolExecutor(max_workers=3) as ex:
         recs = list(ex.map(lambda j: one(ctx, *j), jobs))
@@ -203,7 +255,7 @@ def main(ctx: Ctx) -> None:
                 found = True
                 ctx.report({"class": "parallel-build-fails"},
                            f"-n {rec['n']} (schedule seed {rec['sseed']}) ends in an internal failure while the sequential build succeeds",
-                           {"workers": rec["n"], "schedule_seed": rec["sseed"], "files": rec["files0"], "stderr": rec["par_crashed"]})
+                           {"workers": rec["n"], "schedule_seed": rec["sseed"], "flags": rec.get("flags", []), "files": rec["files0"], "stderr": rec["par_crashed"]})
             continue
         ctx.case((rec["name"], rec["n"], rec["sseed"]), nontrivial=rec.get("overlap", False))
         ctx.dist("workers", str(rec["n"]))
@@ -218,7 +270,7 @@ def main(ctx: Ctx) -> None:
             if not d:
                 continue
             ctx.count("disagreements_checked")
-            replay = {"what": what, "workers": rec["n"], "schedule_seed": rec["sseed"], "files": files,
+            replay = {"what": what, "workers": rec["n"], "schedule_seed": rec["sseed"], "flags": rec.get("flags", []), "files": files,
                       "files_before_edit": rec["files0"] if files is not rec["files0"] else None, "diff": d,
                       "schedule": (rec.get("par2") or rec["par"]).get("sched")}
             if B.only_once_note_diff(d):
@@ -259,9 +311,9 @@ def replay(ctx: Ctx, path: str) -> int:
             os.utime(fp, (clock, clock))
     if det.get("files_before_edit"):
         put(det["files_before_edit"], 1_700_000_002)
-        B.run_mypy(root, os.path.join(base, "cpar"), ["-n", str(det["workers"])], sched_seed=det["schedule_seed"], scratch=base)
+        B.run_mypy(root, os.path.join(base, "cpar"), ["-n", str(det["workers"])] + det.get("flags", []), sched_seed=det["schedule_seed"], scratch=base)
     put(det["files"], 1_700_000_004)
-    par = B.run_mypy(root, os.path.join(base, "cpar"), ["-n", str(det["workers"])], sched_seed=det["schedule_seed"], scratch=base)
+    par = B.run_mypy(root, os.path.join(base, "cpar"), ["-n", str(det["workers"])] + det.get("flags", []), sched_seed=det["schedule_seed"], scratch=base)
     seq = B.run_mypy(root, os.path.join(base, "cseq"), SEQ, scratch=base)
     print(B.diff_outputs(B.canon_output(par), B.canon_output(seq)))
     return 0
